@@ -481,13 +481,13 @@ class C05(TextPlan):
         for tpl in templates:
             ls = tpl.split(b'\n')
             for k in range(len(ls)):
-                for bad in (b'|', b'=', b'&'):
+                for bad in (b'|', b'=', b'&', b'||', b'&&', b'=='):
                     for where in (0, 1):
                         c = list(ls)
                         c[k] = (bad + b' ' + c[k]) if where == 0 else (c[k] + b' ' + bad)
                         lines.append([10] + dflt + list(b'\n'.join(c)))
         # token soup
-        alpha = [b'mov', b'dat', b'for', b'rof', b'equ', b'end', b'org', b'x', b'y', b'1', b'0', b'+', b'-', b'*', b'/', b'%', b'(', b')', b',', b':', b';c', b'\n', b' ', b'$', b'#', b'@', b'<', b'>', b'{', b'}', b'==', b'<=', b'.ab', b'_', b'\t', b'\r\n']
+        alpha = [b'mov', b'dat', b'for', b'rof', b'equ', b'end', b'org', b'x', b'y', b'1', b'0', b'+', b'-', b'*', b'/', b'%', b'(', b')', b',', b':', b';c', b'\n', b' ', b'$', b'#', b'@', b'<', b'>', b'{', b'}', b'==', b'<=', b'||', b'&&', b'|', b'&', b'=', b'.ab', b'_', b'\t', b'\r\n']
         nsoup = 300 if tier != 'thorough' else 6000
         for _ in range(nsoup):
             t = b''.join(rng.choice(alpha) + rng.choice([b'', b' ']) for _ in range(rng.randint(1, 40)))
